@@ -6,13 +6,6 @@ From NV Require Import Gen.MetaConsts Meta.SMap Meta.SMapProofs Meta.Model Meta.
      Meta.StatusProofs Meta.WfProofs.
 Local Open Scope N_scope.
 
-(* known class, lifted to addresses *)
-Definition excluded (s : state) (e : N) (c : cid) (o : oid) : bool :=
-  match bucket s c with
-  | Some b => negb (cgc b) && excluded_k max_nesting b e o
-  | None => false
-  end.
-
 Lemma status_class_rank (st : Spec.status) :
   status_class (rank st) = if status_eqb st Available then None else Some (class_of_status st).
 Proof. destruct st; reflexivity. Qed.
@@ -115,7 +108,7 @@ Proof.
   intros W X. unfold view_search, search_in. destruct (bucket s c) as [b|] eqn:E; [|reflexivity].
   assert (Wb : wfc b) by (eapply wf_bucket; eauto).
   destruct (cgc b) eqn:G; [reflexivity|].
-  apply filter_ext_in'. intros o _. specialize (X o). unfold excluded in X. rewrite E, G in X. simpl in X.
+  apply filter_ext_in'. intros o _. specialize (X o). unfold excluded in X. unfold bucket in E. rewrite E, G in X. simpl in X.
   rewrite (object_status_spec b _ o Wb X). destruct (status_k max_nesting b (epoch s) o); reflexivity.
 Qed.
 
@@ -137,10 +130,10 @@ Theorem expired_iter_exact s e x :
   wf_state s -> (In x (view_expired s e) <-> In x (expired_unlocked s e)).
 Proof.
   intros W. unfold view_expired, expired_unlocked. rewrite !in_flat_map.
-  split; intros [[c b] [Hin H]]; exists (c, b); split; auto;
+  split; intros [[c b] [Hin H]]; exists (c, b); split; auto; cbn [fst snd] in *;
     assert (Wb : wfc b) by (destruct W as [_ W2]; eapply W2; eauto).
   - unfold expired_unlocked_in. destruct (cgc b); [destruct H|].
-    apply in_flat_map in H as [[ex o] [H1 H2]]. apply in_sort_exp in H1.
+    apply in_flat_map in H as [[ex o] [H1 H2]]. rewrite in_sort_exp in H1.
     apply in_flat_map in H1 as [[o' en] [H3 H4]]. simpl in *.
     destruct (h_exp (e_hdr en)) as [x0|] eqn:EX; [|destruct H4].
     destruct (x0 <? e) eqn:LT; [|destruct H4]. destruct H4 as [H4|[]]. inversion H4; subst.
@@ -157,7 +150,7 @@ Proof.
     unfold expired in EX. destruct Wb as [Wo Wg]. rewrite (sm_get_in _ _ _ Wo H3) in EX.
     destruct (h_exp (e_hdr en)) as [x0|] eqn:EX2; [|discriminate].
     apply in_flat_map. exists (x0, o). split.
-    + apply in_sort_exp. apply in_flat_map. exists (o, en). split; auto. simpl. rewrite EX2, EX. now left.
+    + rewrite in_sort_exp. apply in_flat_map. exists (o, en). split; auto. simpl. rewrite EX2, EX. now left.
     + simpl. rewrite (locked_spec b e o (conj Wo Wg)), LL.
       rewrite (type_of_in b o en (conj Wo Wg) H3). now left.
 Qed.
